@@ -643,9 +643,11 @@ def N6_finality(ctx):
                 c_ok = has_lower and has_lt
                 m_term = r
         p_ok = False
-        if payload is not None and payload[0] == 'agg' and payload[1] == 'tuple' and len(payload[3]) == 2:
-            g, m = payload[3]
-            p_ok = has_call(g, '~Mutex') and mentions_field(g, 'tx_states') and m_term is not None and strip(m) == m_term
+        if payload is not None and payload[0] == 'agg' and len(payload[3]) == 2:
+            # (a pair or a small named struct: the locked guard and the carried maximum, in either field order)
+            for g, m in (payload[3], payload[3][::-1]):
+                if has_call(g, '~Mutex') and mentions_field(g, 'tx_states') and m_term is not None and strip(m) == m_term:
+                    p_ok = True
         if not (a_ok and b_ok and c_ok and p_ok):
             bad.append((p, dict(behind_validation_cursor=a_ok, status_unconfirmed_under_guard=b_ok,
                                 timestamp_newer_than_carried_max=c_ok, returns_guard_and_max=p_ok)))
@@ -1128,7 +1130,8 @@ def X7_conflict_flag(ctx):
         if (variant_of(st[0].d['value']) == 'Conflict') != blocked:
             bad.append(p)
         adds = calls(p, 'TxDependency::add')
-        if blocked and not (adds and has_call(adds[0].d['args'][2], 'Scheduler::latest_unfinalized_blocker') and mentions(adds[0].d['args'][2], res)):
+        if blocked and not (adds and (has_call(adds[0].d['args'][2], 'Scheduler::latest_unfinalized_blocker') or mentions_field(adds[0].d['args'][2], 'IncarnationAccesses.blocking_txs'))
+                            and mentions(adds[0].d['args'][2], res)):
             bad.append(p)
     ctx.ob('X7', f, 'conflict-iff-attempt-was-blocked', n >= 4 and not bad, f'{len(bad)} deviating path(s): ' + (describe(bad[0], 8) if bad else ''), site=f.loc(f.b['lo']),
            what='a successful attempt that read an estimate published estimate writes and must be re-executed (Conflict, parked behind its latest unfinalised blocker); an unblocked one is Executed')
